@@ -91,6 +91,40 @@ let km_of = function
 let rec take n l = if n = 0 then [] else match l with [] -> [] | x :: r -> x :: take (n - 1) r
 let rec drop n l = if n = 0 then l else match l with [] -> [] | _ :: r -> drop (n - 1) r
 
+(* ---------- sessions: seq <K|KW|H|HW> <12 keymeta tokens> <op> ... ---------- *)
+let split_colon (s : Stdlib.String.t) = Stdlib.String.split_on_char ':' s
+let sub_from (s : Stdlib.String.t) i = Stdlib.String.sub s i (Stdlib.String.length s - i)
+
+(* explicit version bytes: "-" None | "e" b'' | b<hex> bytes | s<hex text> hex text (bytes.fromhex) *)
+let pref_of tok : C12_model.byte list option =
+  if tok = "-" then None
+  else if tok = "e" then Some []
+  else match tok.[0] with
+    | 'b' | 's' -> Some (bytes_of_hex (Stdlib.String.lowercase_ascii (sub_from tok 1)))
+    | _ -> failwith "prefix token"
+let wt_of tok = if tok = "-" then None else if tok = "e" then Some (coq_of_str "") else Some (coq_of_str tok)
+
+(* (call, how the exported value is imported back: n = no hint, h = the object's network as hint, x = not at all) *)
+let sop_of tok =
+  match split_colon tok with
+  | ["wif"; p; i] -> (SWif (pref_of p), i)
+  | ["x"; isp; child; p; wt; ms; i] ->
+      (SXkey (otf isp, (if child = "-" then None else Some (z_of child)), pref_of p, wt_of wt, otf ms), i)
+  | ["xprv"; p; wt; ms; i] -> (SXkey (Some true, None, pref_of p, wt_of wt, otf ms), i)
+  | ["xpub"; p; wt; ms; i] -> (SXkey (Some false, None, pref_of p, wt_of wt, otf ms), i)
+  | ["net"; name] -> (SNet (coq_of_str name), "x")
+  | ["public"] -> (SPublic, "x")
+  | ["addr"; c; _] -> (SAddr (otf c), "x")
+  | ["hex"; b; i] -> (SHex (tf b), i)
+  | ["bytes"; b; i] -> (SBytes (tf b), i)
+  | ["int"; i] -> (SInt, i)
+  | ["enc"; _; _] | ["dict"; _] | ["repr"] -> (SOpaque, "x")
+  | _ -> failwith "op token"
+
+let fields_s hd (s : sstate) =
+  Printf.sprintf "p=%s c=%s net=%s child=%s" (b01 s.ss_km.km_private) (b01 s.ss_compressed)
+    (str_of_coq s.ss_km.km_network) (if hd then str_z s.ss_km.km_child else "-")
+
 let dispatch toks =
   match toks with
   | [] -> "BADREQ"
@@ -126,6 +160,53 @@ let dispatch toks =
            hd_res (lib_hdkey_import fold wifcheck oc (key_of_tok k) (oname hint) (oname wt) (tf ms) (tf comp))
        | ["fromwif"; s; hint; ms; comp] ->
            hd_res (lib_hdkey_from_wif fold wifcheck oc (bytes_of_hex s) (oname hint) (otf ms) (tf comp))
+       | "seq" :: mode :: rest when List.length rest >= 12 ->
+           let hd = mode.[0] = 'H' in
+           let km = km_of (take 12 rest) in
+           if not (network_defined km.km_network) then "BUILD ERR network"
+           else if not (km_constructible oc km) then "BUILD ERR key"
+           else begin
+             let ops = List.map sop_of (drop 12 rest) in
+             let calls = List.map fst ops in
+             let s0 = ss_init km in
+             let answers = session pubser oc s0 calls in
+             let befores = session_states oc s0 calls in
+             let afters = (match befores with [] -> [] | _ :: r -> r) @ [session_final oc s0 calls] in
+             let reimport (after : sstate) text mode xkey =
+               if mode = "x" then "-"
+               else begin
+                 let hint = if mode = "h" then Some after.ss_km.km_network else None in
+                 if hd || xkey then hd_res (lib_hdkey_import fold wifcheck oc (KStr text) hint None false true)
+                 else key_res (lib_key_import fold wifcheck oc (KStr text) hint true None)
+               end in
+             let one ((call, imode), (ans, after)) =
+               let body =
+                 match ans with
+                 | AText (Err e) -> err_s e
+                 | AText (Ok w) ->
+                     let xkey = (match call with SXkey _ -> true | _ -> false) in
+                     Printf.sprintf "X=%s | %s | %s" (text_of_bytes w) (gkf (KStr w) None) (reimport after w imode xkey)
+                 | ARaw v ->
+                     let ki, shown =
+                       (match v with
+                        | RBytes b -> (Some (KBytes b), "b:" ^ hex_of_bytes b)
+                        | RText t -> (Some (KStr t), "s:" ^ hex_of_bytes t)
+                        | RInt z -> (Some (KInt z), "i:" ^ str_z z)
+                        | RNone -> (None, "None")) in
+                     let r =
+                       (match ki with
+                        | None -> "-"
+                        | Some _ when imode = "x" -> "-"
+                        | Some k -> key_res (lib_key_import fold wifcheck oc k (Some after.ss_km.km_network)
+                                               after.ss_compressed None)) in
+                     Printf.sprintf "R=%s | %s" shown r
+                 | ADone (Ok _) -> "OK"
+                 | ADone (Err e) -> err_s e
+                 | AComp c -> "A comp=" ^ b01 c
+                 | AUnmodelled -> "OPAQUE" in
+               body ^ " # " ^ fields_s hd after in
+             Stdlib.String.concat " || " (List.map one (List.combine ops (List.combine answers afters)))
+           end
        | "rtwif" :: rest when List.length rest >= 14 ->
            (* rtwif <12 keymeta tokens> <via> <import args…> *)
            let km = km_of (take 12 rest) in
